@@ -1,4 +1,5 @@
 import GqlVerif.Proofs.C18
+import GqlVerif.Model.Gen.Consts
 /-!
 # C18 — the derive macro applies exactly the options written in `#[graphql(...)]`
 
@@ -401,6 +402,22 @@ example (st : Style) :
     extractAttr (mkInput [] st [.kv "response_derives" "deprecated", .kv "variables_derives" "deprecated = \"deny\", x",
       .kv "deprecated" "allow"] []) "deprecated" = .ok "allow" :=
   (extractAttr_iff _ _ _ _ _ _ (by decide) (by decide)).mpr (by decide)
+
+
+/-! ## the keys of `#[graphql(...)]`: model vs source (regenerated table) -/
+
+/-- every look-up the model's option extraction makes (`Model/Attr.lean`: `deriveOptions` and its helpers),
+    with the scanner used: kv = `extractAttr`, list = `extractAttrList`, flag = `identExists` -/
+def modelKeys : List (String × String) :=
+  [("custom_scalars_module", "kv"), ("deprecated", "kv"), ("extern_enums", "list"),
+   ("fragments_other_variant", "kv"), ("normalization", "kv"), ("query_path", "kv"),
+   ("response_derives", "kv"), ("schema_path", "kv"), ("skip_serializing_none", "flag"),
+   ("variables_derives", "kv")]
+
+/-- the derive macro of the *current* source looks up exactly these keys with exactly these scanners
+    (`Gen.deriveKeys` is regenerated from `graphql_query_derive/src/{lib,attributes}.rs` on every run):
+    a key added, renamed or read with another scanner breaks this obligation -/
+theorem derive_keys_match_source : modelKeys = Gen.deriveKeys := by decide
 
 end C18
 end GqlVerif
